@@ -284,6 +284,18 @@ def one_edit(s):
     out.discard(s)
     return sorted(out)
 
+def last_two_label_lengths():
+    """every length 1-63 of the last label behind second-level labels of the lengths the code distinguishes (7 = 'example') and a few others,
+    with and without the root dot: sums like 7 + 1 + 56 = 64 sit on no single-label boundary"""
+    out = []
+    for l1 in (1, 2, 6, 7, 8, 9, 10, 56, 57, 62, 63):
+        for l2 in range(1, 64):
+            d = b'a' * l1 + b'.' + b'b' * l2
+            out += [d, d + b'.', b'x.' + d]
+    for l2 in range(1, 64):
+        out += [b'example.' + b'c' * l2, b'samples.' + b'c' * l2, b'EXAMPLE.' + b'C' * l2 + b'.']
+    return out
+
 def reserved_domains(full=False):
     """0-3 labels of every length 1-63 (length 7 and the word 'example' in particular) before each reserved
     suffix and before its one-edit neighbours, in several case patterns."""
@@ -523,3 +535,21 @@ def source_addresses(src_root, max_words=400, max_nums=160):
     for k in [k for k in nums if 300 < k <= 70000][:12]:
         out += [b'a' * k + b'@b.com', b'a@' + b'b' * k, b'a@' + (b'b.' * k)[:k], b'"' + b'\\"' * (k // 2) + b'"@b.com']
     return sorted(set(a for a in out if 0 not in a))
+
+# ------------------------------------------------------------------ spellings that only become ASCII names through the IDNA mapping step
+def mapped_variants(names=None):
+    """UTF-8 spellings which IDNA2008 + UTS#46 mapping (what idn2_to_ascii_8z applies) turns into the given ASCII names: full-width letters,
+    ideographic / full-width / half-width full stops as label separators, a soft hyphen or zero-width joiner inside a label, upper-case
+    non-ASCII forms.  The reserved names and a few listed TLDs by default."""
+    if names is None:
+        names = ['test', 'a.test', 'example', 'b.example', 'invalid', 'localhost', 'onion', 'b.onion', 'example.com', 'a.example.org', 'example.net',
+                 'b.com', 'b.org', 'b.de', 'b.museum', 'b.adac', 'b.biz', 'b.zz']
+    fw = lambda s: ''.join(chr(ord(c) + 0xFEE0) if 'a' <= c <= 'z' or 'A' <= c <= 'Z' or '0' <= c <= '9' else c for c in s)
+    out = []
+    for n in names:
+        vs = {fw(n), fw(n.upper()), n.replace('.', '。'), n.replace('.', '．'), n.replace('.', '｡'), fw(n).replace('.', '。'),
+              n[:2] + '­' + n[2:], n[:1] + '‍' + n[1:], n + '。', '­' + n, n.replace('e', 'ｅ', 1), n.replace('t', 'Ｔ', 1),
+              n.replace('s', 'ſ', 1), n.upper().replace('.', '。')}
+        for v in vs:
+            if v != n: out.append(v.encode('utf-8'))
+    return sorted(set(out))
